@@ -177,3 +177,55 @@ def run(repo: Repo, rep: Report) -> None:
                "a path deletes a cell without relinking its predecessor: the chain is broken", node=c)
     if not dels:
         raise AnalysisError("Collection.__delitem__ deletes no cell")
+
+    # ------------------------------------------------------------------ (e) errors of guarded walks are not swallowed
+    rep.rule("C19.e-walk-errors-propagate",
+             "no Collection method catches ValueError/Exception (or everything) around a call to one of the chain walks (index, _end, _get_container, "
+             "graph.items, iteration) without re-raising: a cyclic or broken chain must raise, not be reported as `absent`", floor=1)
+    walks = {"index", "_end", "_get_container", "items", "__iter__", "__len__"}
+    nh = 0
+    for mname, f in methods.items():
+        for t in [n for n in own_nodes(f) if isinstance(n, ast.Try)]:
+            calls_walk = any(isinstance(c, ast.Call) and isinstance(c.func, ast.Attribute) and c.func.attr in walks for s_ in t.body for c in ast.walk(s_))
+            if not calls_walk:
+                continue
+            for h in t.handlers:
+                nh += 1
+                tn = norm(h.type) if h.type is not None else "<bare>"
+                broad = h.type is None or any(x in tn for x in ("ValueError", "Exception", "BaseException"))
+                reraises = any(isinstance(x, ast.Raise) for s_ in h.body for x in ast.walk(s_))
+                rep.ob("C19.e-walk-errors-propagate", col, "Collection." + mname, "except %s around a chain walk" % tn, (not broad) or reraises,
+                       "narrow / re-raising handler" if (not broad) or reraises else
+                       "the handler swallows %s raised by a chain walk: `List contains a recursive rdf:rest reference` is turned into an ordinary answer" % tn, node=h)
+    if nh == 0:
+        rep.ob("C19.e-walk-errors-propagate", col, "Collection", "no handler encloses a chain walk", True, "nothing can swallow a walk's error", node=col.cls("Collection"))
+
+    # ------------------------------------------------------------------ (f) mutate only over materialised walks / fresh cells
+    rep.rule("C19.f-mutating-loops-and-fresh-cells",
+             "a loop in Collection whose body removes or re-links cells does not iterate a lazy walk of the same chain (a generator method / "
+             "graph iterator): it uses its own cursor or a materialised list; every new cell is an argument-free BNode()", floor=2)
+    gens = {m for m, f in methods.items() if any(isinstance(x, (ast.Yield, ast.YieldFrom)) for x in own_nodes(f))}
+    for mname, f in methods.items():
+        al = _graph_aliases(f)
+        for lp in [n for n in own_nodes(f) if isinstance(n, ast.For)]:
+            muts = [c for s_ in lp.body for c in ast.walk(s_) if _gcall(c, al, {"remove", "set"})]
+            if not muts:
+                continue
+            it = lp.iter
+            lazy = None
+            if isinstance(it, ast.Call) and isinstance(it.func, ast.Attribute):
+                if isinstance(it.func.value, ast.Name) and it.func.value.id == "self" and it.func.attr in gens:
+                    lazy = "self.%s() is a generator over the chain" % it.func.attr
+                if norm(it.func.value) in al and it.func.attr in ("items", "objects", "triples", "subjects", "predicate_objects", "transitive_objects"):
+                    lazy = "%s is a live iterator over the graph" % norm(it)[:40]
+            if isinstance(it, ast.Name) and it.id == "self":
+                lazy = "iterating the collection itself"
+            rep.ob("C19.f-mutating-loops-and-fresh-cells", col, "Collection." + mname, "for %s in %s" % (norm(lp.target), norm(it)[:50]), lazy is None,
+                   "iterates a materialised / independent sequence while editing cells" if lazy is None else
+                   "cells are removed/re-linked while %s: the walk loses its way after the first edit and the remaining cells stay behind as orphans" % lazy, node=lp)
+    for mname, f in methods.items():
+        for c in own_nodes(f):
+            if isinstance(c, ast.Call) and norm(c.func) == "BNode":
+                ok = not c.args and not c.keywords
+                rep.ob("C19.f-mutating-loops-and-fresh-cells", col, "Collection." + mname, c, ok,
+                       "fresh cell" if ok else "a new cell is named from data (%s): after deletions the name can coincide with a cell still in the chain" % norm(c)[:60], node=c)
